@@ -131,6 +131,10 @@ SizesAgree == l > 1 => MapSizesAgree(Forest(Cur))
 NoLeak == l > 1 => Cur.st.stored = Cur.st.reach
 
 ObsPairsOf(ro) == LET a == ro.abs IN {<<a[2 * i - 1].v, a[2 * i].v>> : i \in 1..(Len(a) \div 2)}
+\* C03 / C08 / C15: a slab served from the read cache and not pending in the write set is what the ledger holds under its
+\* identifier (its encoding equals the register): an in-place change of a cached slab that never reached the write set would be
+\* skipped by the next commit and differ from what any other storage decodes from the ledger
+CacheCoherent == l > 1 => Len(Cur.st.stale) = 0
 NoLedgerWrite == l > 1 => Cur.st.calls = lcalls
 TempNeverWritten == l > 1 => \A i \in 1..Len(Cur.calls) : Cur.calls[i].owner # 0
 Durable == (l > 1 /\ Cur.ev = "Commit" /\ Cur.res.class = "ok") =>
